@@ -153,10 +153,11 @@ type RealSource struct {
 	tid   int
 	ig    *IGSpec
 	src   string
+	batch int // the task's batch size (0 = unknown)
 }
 
-func (n *Node) RealSourceFor(tid int, ig *IGSpec, srcName string, inner shovel.Source) *RealSource {
-	return &RealSource{inner: inner, node: n, tid: tid, ig: ig, src: srcName}
+func (n *Node) RealSourceFor(tid int, ig *IGSpec, srcName string, inner shovel.Source, batch int) *RealSource {
+	return &RealSource{inner: inner, node: n, tid: tid, ig: ig, src: srcName, batch: batch}
 }
 
 func (s *RealSource) NextURL() *jrpc2.URL { return s.inner.NextURL() }
@@ -201,6 +202,18 @@ func (s *RealSource) Get(ctx context.Context, url string, f *glf.Filter, start, 
 	}()
 	blocks, err = s.inner.Get(ctx, url, f, start, limit)
 	if err != nil {
+		s.node.rec.RPCGet(c, nil, nil, err)
+		return
+	}
+	if s.batch > 0 && int(c.Off)+len(blocks) > s.batch {
+		// more blocks than the WHOLE load may have: Task.insert would index its per-partition
+		// destinations out of range inside a goroutine of its own, which no caller can recover
+		// and which kills the process (and with it every other case of the run).  Reported,
+		// and the partition is failed instead.  (Smaller excesses are passed on: their
+		// consequences are what the oracles look at.)
+		s.node.rec.Anomaly(fmt.Sprintf("jrpc2.Client.Get(start %d, limit %d) returned %d blocks %d..%d: with the partitions before it more than the batch size %d; not handed to the task (Task.insert would panic: index out of range)",
+			start, limit, len(blocks), blocks[0].Num(), blocks[len(blocks)-1].Num(), s.batch))
+		blocks, err = nil, fmt.Errorf("tasksim: Get(%d, %d) returned %d blocks", start, limit, len(blocks))
 		s.node.rec.RPCGet(c, nil, nil, err)
 		return
 	}
